@@ -94,7 +94,14 @@ def call_real(case):
             df = pd.DataFrame({"t": tb, "s": np.arange(n), "p": ["P%d" % i for i in range(n)], "f": sc})
             ds = D.LinearPsmDataset(df, target_column="t", spectrum_columns="s", peptide_column="p",
                                     feature_columns="f", copy_data=False, enforce_checks=False)
-            lab = ds._update_labels(sc, f, desc)
+            if (n + len(perm) + thr[0]) % 2:
+                # the dataset object has already labelled OTHER scores under the same column name, threshold and direction
+                # (a feature column re-scored, e.g. Series arithmetic keeps the name): the second answer is for the second scores
+                ds._update_labels(pd.Series(sc[::-1].copy(), name="f"), f, desc)
+                ds._update_labels(ds.data["f"] * -1.0 + 0.5, f, desc)
+                lab = ds._update_labels(pd.Series(sc, name="f"), f, desc)
+            else:
+                lab = ds._update_labels(sc, f, desc)
         tr.update(kind="labels", thr=list(thr), labels=[int(x) for x in np.asarray(lab).tolist()])
     return tr
 
